@@ -898,10 +898,16 @@ func checkNotExistsConflict(db *leveldb.DB, m *kvrpcpb.Mutation, startTS uint64)
 	})
 	defer iter.Release()
 	dec := lockDecoder{expectKey: m.Key}
-	if _, err := dec.Decode(iter); err != nil {
+	ok, err := dec.Decode(iter)
+	if err != nil {
 		return err
 	}
-	_, err := checkConflictValue(iter, m, startTS, startTS, false, kvrpcpb.AssertionLevel_Off, false, false)
+	// Like every prewrite mutation the check stops at a lock of another transaction, whatever its start_ts:
+	// that transaction may be about to create the key.
+	if ok && dec.lock.startTS != startTS {
+		return dec.lock.lockErr(m.Key)
+	}
+	_, err = checkConflictValue(iter, m, startTS, startTS, false, kvrpcpb.AssertionLevel_Off, false, false)
 	return err
 }
 
